@@ -77,9 +77,48 @@ def gen_cases(tier, seed):
         k = cand[int(rng.integers(len(cand)))]
         ops.insert(k + 1, dict(ops[k]))  # adjacent repeat: same pool state, same key
         fp = ["default", "raise", "ignore", "call", "default"][i % 5]
-        cases.append({"shells": shells, "ops": ops[:34], "fp": fp, "pool_seed": [seed, i],
+        cases.append({"kind": "history", "shells": shells, "ops": ops[:34], "fp": fp, "pool_seed": [seed, i],
                       "classes": classes + ["fp:" + fp, "nops:%d" % len(ops[:34])], "cost": len(ops) * (1 + sum(ls)) ** 2})
+    if tier == "thorough":
+        # the repository's own, unedited test-suite as a workload with the sentinels on (pytest plugin vmon.pytest_plugin)
+        cases.append({"kind": "testsuite", "classes": ["repo-testsuite-under-monitors"], "cost": 1e9})
     return cases
+
+
+def run_testsuite(case):
+    import glob
+    import json
+    import subprocess
+    import sys
+
+    from vmon import env
+
+    out = os.path.join(env.WORK, "plugin-%d" % os.getpid())
+    for f in glob.glob(out + ".*.json"):
+        os.remove(f)
+    cmd = [sys.executable, "-m", "pytest", "-q", "-p", "no:cacheprovider", "-p", "vmon.pytest_plugin", "-n", "4", "tests"]
+    p = subprocess.run(cmd, cwd=env.REPO, capture_output=True, text=True, timeout=3 * 3600,
+                       env={**os.environ, "PYTHONPATH": env.VERIF + os.pathsep + env.REPO, "VMON_PLUGIN_OUT": out, "VERIF_REPO": env.REPO})
+    last = (p.stdout.strip().splitlines() or ["?"])[-1]
+    viols, ntests, evals = [], 0, 0
+    counts = {}
+    for f in glob.glob(out + ".*.json"):
+        with open(f) as fh:
+            d = json.load(fh)
+        os.remove(f)
+        ntests += d["tests"]
+        for k, v in d.get("counts", {}).items():
+            counts[k] = counts.get(k, 0) + v
+        for x in d["firings"]:
+            if x["owner"] == "C19":
+                viols.append(cm.viol("[repository test %s] %s fired in %s: %s" % (x["test"], x["monitor"], x["function"], x["detail"]), x["monitor"],
+                                     function=x["function"], detail=x["detail"][:200], test=x["test"]))
+    evals = int(sum(v for k, v in counts.items() if k in ("M-pure", "M-fp", "M-alias", "M-fresh", "M-pure-raise")))
+    res = {"evals": evals, "nontrivial": ntests > 100, "classes": case["classes"], "errs": {"repo_tests_run": float(ntests)}, "violations": viols[:20],
+           "testsuite": {"summary": last, "tests": ntests, "monitor_counts": {k: v for k, v in counts.items() if k.startswith("M-")}}}
+    if ntests == 0:
+        res["harness_error"] = "the repository test-suite did not run under the plugin: %s" % (p.stdout[-500:] + p.stderr[-500:])
+    return res
 
 
 class Mole:
@@ -338,6 +377,8 @@ def run_history(case, pool, mode, viols, pass_name):
 
 
 def run_case(case):
+    if case.get("kind") == "testsuite":
+        return run_testsuite(case)
     viols, errs = [], {}
     evals = 0
     tmp = tempfile.mkdtemp(prefix="c19-", dir=os.environ.get("TMPDIR", "/tmp"))
@@ -435,13 +476,15 @@ def classify(case, v):
 
 def summarize(cases, results, counts, lists, tier):
     ops = {}
+    ts = [r["testsuite"] for r in results if r.get("testsuite")]
     for r in results:
         for c in r.get("classes", []):
             if c.startswith("op:"):
                 ops[c[3:]] = ops.get(c[3:], 0) + 1
     return {"operation_kinds_exercised": len(ops), "operation_kinds": dict(sorted(ops.items())),
             "raising_operations": int(sum(r.get("errs", {}).get("raising_ops", 0) for r in results)),
-            "repeated_keys": int(sum(r.get("errs", {}).get("repeated_keys", 0) for r in results))}
+            "repeated_keys": int(sum(r.get("errs", {}).get("repeated_keys", 0) for r in results)),
+            "repository_testsuite_under_monitors": ts[0] if ts else "quick tier: not run"}
 
 
 def inconclusive(results, counts, tier):
